@@ -1065,6 +1065,9 @@ def gen_group(rng):
         for o in range(ntx):
             if o != k and rng.random() < 0.4:
                 rel.append(f"{rng.choice([-2, -1, 1, 2, 3])}={ids[o]}")
+        if rel and rng.random() < 0.3:
+            # the file format allows one id to be listed twice (the later offset wins) and one offset twice (the later id wins)
+            rel.append(f"{rng.choice([-2, -1, 1, 2, 3])}={rng.choice(rel).split('=')[1]}")
         lines.append(f"T {ids[k]} {ty} {hl} {ls} {app} {ab} {','.join(rel) if rel else '-'}")
     return "\n".join(lines)
 
